@@ -10,6 +10,8 @@ import (
 	"strings"
 	"unicode/utf8"
 
+	"golang.org/x/tools/go/ssa"
+
 	"symgo/smt"
 )
 
@@ -525,6 +527,33 @@ func init() {
 	// data that the engine protocol never consults; it is passed through unchanged
 	reg("github.com/arr-ai/arrai/pkg/arraictx.InitRunCtx", func(fr *frame, a []value) value { return a[0] })
 	reg("time.Now", func(fr *frame, a []value) value { panic(unsupported("time.Now")) })
+	// os.IsNotExist(err): true exactly for the io/fs.ErrNotExist sentinel (what the harness
+	// filesystems return for a missing path); *PathError wrapping and errno values do not occur
+	// because no real filesystem is reachable
+	reg("os.IsNotExist", func(fr *frame, a []value) value {
+		i := fr.i
+		e := a[0].(iface)
+		if e.t == nil {
+			return false
+		}
+		pkg := i.sh.prog.ImportedPackage("io/fs")
+		if pkg == nil {
+			panic(unsupported("os.IsNotExist without io/fs"))
+		}
+		g, ok := pkg.Members["ErrNotExist"].(*ssa.Global)
+		if !ok {
+			panic(unsupported("io/fs.ErrNotExist not found"))
+		}
+		want := *i.globals[g]
+		wi, ok := want.(iface)
+		if !ok || wi.t == nil {
+			panic(unsupported("io/fs.ErrNotExist is not initialised"))
+		}
+		if !sameType(e.t, wi.t) {
+			return false
+		}
+		return i.equals(e.t, e.v, wi.v)
+	})
 	reg("os.Getenv", func(fr *frame, a []value) value { return "" })
 	reg("os.Getwd", func(fr *frame, a []value) value { panic(unsupported("os.Getwd")) })
 
